@@ -161,6 +161,10 @@ func classifyEmail(pol, email string) string {
 
 func deadline(k int, now time.Time, r *rand.Rand) time.Time {
 	if k < 0 {
+		if r.Intn(4) == 0 {
+			// only just (the cookie keeps whole seconds): "expired" has no tolerance
+			return now.Add(-time.Duration(1+r.Intn(3)) * time.Second).Truncate(time.Second)
+		}
 		return now.Add(-world.U/2 - time.Duration(r.Intn(3))*world.U).Truncate(time.Second)
 	}
 	return now.Add(time.Duration(k)*world.U + world.U/2).Truncate(time.Second)
